@@ -72,7 +72,35 @@ func rangeIndexPattern(b *ssa.BasicBlock) (*ssa.Alloc, ssa.Value) {
 	return nil, nil
 }
 
-func (u *Unit) loopEnv(st *State, fr *Frame, head *ssa.BasicBlock) *SpecEnv {
+// loopSpecFor returns the specification of loop ord of frame fr and the frame in whose
+// vocabulary it is written: the frame itself, or - for a loop of an inlined callee that the
+// function under contract specifies ("inlined <callee> loop N ...") - the root frame.
+func (u *Unit) loopSpecFor(st *State, fr *Frame, ord int) (*LoopSpec, *Frame) {
+	if len(st.frames) > 1 && fr != st.frames[0] && u.contract != nil && u.contract.InlinedLoops != nil {
+		if m := u.contract.InlinedLoops[relName(fr.fn)]; m != nil && m[ord] != nil {
+			return m[ord], st.frames[0]
+		}
+	}
+	if fr.contract != nil {
+		return fr.contract.Loops[ord], fr
+	}
+	return nil, fr
+}
+
+// loopTag names a loop in obligation names: "#N" for the function under contract,
+// "#callee:N" for a loop of an inlined callee.
+func (u *Unit) loopTag(st *State, fr *Frame, ord int) string {
+	if len(st.frames) > 1 && fr != st.frames[0] {
+		return fmt.Sprintf("#%s:%d", relName(fr.fn), ord)
+	}
+	return fmt.Sprintf("#%d", ord)
+}
+
+func (u *Unit) loopEnv(st *State, lfr *Frame, head *ssa.BasicBlock) *SpecEnv {
+	fr := lfr
+	if _, efr := u.loopSpecFor(st, lfr, u.eng.loopsOf(lfr.fn).ordinal[head]); efr != nil {
+		fr = efr
+	}
 	var env *SpecEnv
 	if len(st.frames) == 1 || fr == st.frames[0] {
 		env = u.contractEnvFn(fr.fn, nil, fr.bind, nil, fr.entry)
@@ -102,7 +130,7 @@ func (u *Unit) loopEnv(st *State, fr *Frame, head *ssa.BasicBlock) *SpecEnv {
 		}
 	}
 	if cell, _ := rangeIndexPattern(head); cell != nil {
-		if cells, ok := u.frameOf(st, fr).locals[cell]; ok {
+		if cells, ok := u.frameOf(st, lfr).locals[cell]; ok {
 			env.vars["$k"] = intVal(cells[0])
 			env.vars["$n"] = intVal(fmt.Sprintf("(+ %s 1)", cells[0]))
 		}
@@ -128,10 +156,7 @@ func (u *Unit) loopInvariants(st *State, fr *Frame, head *ssa.BasicBlock, ord in
 			out = append(out, invItem{label: "auto-range", term: fmt.Sprintf("(and (<= (- 1) %s) (< %s %s))", cells[0], cells[0], nv.Terms[0]), src: "-1 <= $k < len (range index)"})
 		}
 	}
-	var spec *LoopSpec
-	if fr.contract != nil {
-		spec = fr.contract.Loops[ord]
-	}
+	spec, _ := u.loopSpecFor(st, fr, ord)
 	if spec == nil {
 		return out
 	}
@@ -170,13 +195,35 @@ func (u *Unit) enterLoopHead(st *State, fr *Frame, head *ssa.BasicBlock, li *loo
 			}
 		}
 	}
+	if lspec, _ := u.loopSpecFor(st, fr, ord); lspec != nil && lspec.Unroll > 0 && st.discover == nil {
+		// complete unrolling: the head is simply executed again; arriving more than Unroll+1
+		// times is an obligation (unwinding assertion), so nothing is cut off silently
+		ls := fr.loops[head]
+		if ls == nil {
+			ls = &loopState{}
+		} else {
+			c := *ls
+			ls = &c
+		}
+		ls.arrivals++
+		fr.loops[head] = ls
+		if ls.arrivals > lspec.Unroll+1 {
+			u.oblige(st, "unwind"+u.loopTag(st, fr, ord), "", "false", head.Instrs[0].Pos(), fmt.Sprintf("loop runs at most %d times (unwinding assertion)", lspec.Unroll), nil, "")
+			return false
+		}
+		evalPhis()
+		fr.prev = from
+		fr.block = head
+		fr.idx = firstNonPhi(head)
+		return true
+	}
 	if ls, active := fr.loops[head]; active {
 		// back edge
 		if st.discover != nil {
 			return false
 		}
 		evalPhis()
-		tag := fmt.Sprintf("#%d", ord)
+		tag := u.loopTag(st, fr, ord)
 		for _, it := range u.loopInvariants(st, fr, head, ord) {
 			if it.spec != nil {
 				if err := u.obligeClause(st, it.env, it.spec, "inv-step"+tag, it.label, head.Instrs[0].Pos(), "loop invariant preserved: "+it.src, it.props, it.where); err != nil {
@@ -186,9 +233,9 @@ func (u *Unit) enterLoopHead(st *State, fr *Frame, head *ssa.BasicBlock, li *loo
 			}
 			u.oblige(st, "inv-step"+tag, it.label, it.term, head.Instrs[0].Pos(), "loop invariant preserved: "+it.src, it.props, it.where)
 		}
-		if fr.contract != nil && fr.contract.Loops[ord] != nil {
+		if lspec, _ := u.loopSpecFor(st, fr, ord); lspec != nil {
 			env := u.loopEnv(st, fr, head)
-			for i, c := range fr.contract.Loops[ord].Steps {
+			for i, c := range lspec.Steps {
 				t, err := u.evalBool(st, env, c.Expr)
 				if err != nil {
 					u.fail(fmt.Sprintf("%s: loop %d step %q: %v", c.Where, ord, c.Src, err))
@@ -202,7 +249,7 @@ func (u *Unit) enterLoopHead(st *State, fr *Frame, head *ssa.BasicBlock, li *loo
 			}
 		}
 		if ls.hasVar {
-			spec := fr.contract.Loops[ord]
+			spec, _ := u.loopSpecFor(st, fr, ord)
 			env := u.loopEnv(st, fr, head)
 			v1, err := u.evalInt(st, env, spec.Decreases.Expr)
 			if err != nil {
@@ -215,7 +262,7 @@ func (u *Unit) enterLoopHead(st *State, fr *Frame, head *ssa.BasicBlock, li *loo
 	}
 	// first arrival
 	evalPhis()
-	tag := fmt.Sprintf("#%d", ord)
+	tag := u.loopTag(st, fr, ord)
 	if st.discover == nil {
 		for _, it := range u.loopInvariants(st, fr, head, ord) {
 			if it.spec != nil {
@@ -353,8 +400,8 @@ func (u *Unit) enterLoopHead(st *State, fr *Frame, head *ssa.BasicBlock, li *loo
 		}
 	}
 	ls := &loopState{}
-	if fr.contract != nil {
-		if spec := fr.contract.Loops[ord]; spec != nil && spec.Decreases != nil {
+	{
+		if spec, _ := u.loopSpecFor(st, fr, ord); spec != nil && spec.Decreases != nil {
 			env := u.loopEnv(st, fr, head)
 			v0, err := u.evalInt(st, env, spec.Decreases.Expr)
 			if err != nil {
